@@ -136,6 +136,38 @@ def _check_1d(desc, tier, V, st):
                 V('periodic-values-differ', '%s: BSplines[%d] S(a)=%r S(b)=%r' % (key, i, b.eval(a_, 0), b.eval(b_, 0)))
             if S.d >= 2 and abs(b.eval(a_, 1) - b.eval(b_, 1)) > 2 * _tol(S, c, 1):
                 V('periodic-slopes-differ', '%s: BSplines[%d] S\'(a)=%r S\'(b)=%r' % (key, i, b.eval(a_, 1), b.eval(b_, 1)))
+    # control flow must not depend on the coefficients (supports "a basis decides all data"): compare executed line traces
+    if st.get('trace_budget', 0) > 0:
+        st['trace_budget'] -= 1
+        import sys
+
+        def traced(c, der):
+            spl = Spline1D(bs)
+            spl.coeffs[:] = c
+            lines = []
+
+            def tr(frame, ev, arg):
+                if 'spline_eval_funcs' in frame.f_code.co_filename:
+                    if ev == 'line':
+                        lines.append((frame.f_code.co_name, frame.f_lineno))
+                    return tr
+                return tr if ev == 'call' else None
+            sys.settrace(tr)
+            try:
+                spl.eval(X, der)
+                for x in X[:4]:
+                    spl.eval(float(x), der)
+            finally:
+                sys.settrace(None)
+            return lines
+        for der in (0, 1):
+            t1 = traced(vecs[0][1], der)
+            t2 = traced(vecs[-1][1], der)
+            t3 = traced(-3.5 * vecs[-1][1] + 1e8, der)
+            st['evals'] += 1
+            st['trace_checks'] = st.get('trace_checks', 0) + 1
+            if not (t1 == t2 == t3) or len(t1) == 0:
+                V('control-flow-depends-on-coefficients', '%s der=%d: executed line traces differ between coefficient vectors (%d/%d/%d lines)' % (key, der, len(t1), len(t2), len(t3)))
     # superposition (thorough): e_i + e_j
     if tier == 'thorough':
         for i, j in itertools.combinations(range(nc), 2):
@@ -258,10 +290,12 @@ def run_case(case):
     def V(sig, what):
         viols.setdefault(sig, {'sig': sig, 'what': what, 'detail': {}})
     if case['kind'] == '1d':
+        st['trace_budget'] = 1 if case['tier'] == 'quick' else 3
         for desc in case['descs']:
             _check_1d(desc, case['tier'], V, st)
         sample = {'space': case['descs'][0]}
     else:
         _check_2d(case['a'], case['b'], case['tier'], V, st)
         sample = {'a': case['a'], 'b': case['b']}
-    return {'evals': st['evals'], 'nontrivial': st['nontrivial'], 'violations': list(viols.values()), 'stats': {}, 'sample': sample}
+    return {'evals': st['evals'], 'nontrivial': st['nontrivial'], 'violations': list(viols.values()),
+            'stats': {'control_flow_trace_checks': st.get('trace_checks', 0)}, 'sample': sample}
